@@ -130,3 +130,43 @@ func VerifC01Pitch() {
 	verifSamePitches("pitches", g8, w8)
 	vf.Reach("end")
 }
+
+// VerifC01ApplyHistory: one Key value applied to a chord and then to another sounds, for the
+// second, exactly what a fresh Key sounds for it alone (the dictionary is shared, as in a real
+// run): nothing cached from an earlier chord leaks into a later one.
+func VerifC01ApplyHistory() {
+	ki := vf.NondetIntRange("key", 0, 3)
+	key := op.Key{Name: crdx.Name([]int{0, 3, 6, 2}[ki]), Accidental: crdx.Acc([]int{0, 1, -1, -1}[ki]), Minor: ki == 1} // C, F#m, Bb, Eb
+	syms := []string{"", "m7", "sus4", "9", "dim7", "add9"}
+	pick := func(name string) op.Chord {
+		rec, ok := verifDict.Map.GetChord(syms[vf.NondetIntRange(name+".symbol", 0, len(syms)-1)])
+		vf.Assert("dictionary-symbol-resolves", ok)
+		dn := []uint{1, 4, 7}[vf.NondetIntRange(name+".degree", 0, 2)]
+		q := crdx.QualityOf(spec.QPerfect)
+		if dn == 7 {
+			q = crdx.QualityOf(spec.QMajor)
+		}
+		var bass *note.Degree
+		if vf.NondetIntRange(name+".bass", 0, 1) == 1 {
+			bass = &note.Degree{Value: 5, Name: crdx.QualityOf(spec.QPerfect)}
+		}
+		return op.NewChord(note.Degree{Value: dn, Name: q}, rec, bass)
+	}
+	first, second := pick("first"), pick("second")
+	used := NewKey(key, verifDict.Map)
+	used.Apply(first)
+	got, gerr := used.Apply(second)
+	fresh := crdx.BuiltinDictionary()
+	want, werr := NewKey(key, fresh.Map).Apply(second)
+	vf.Assert("same-outcome-whatever-was-played-before", (gerr == nil) == (werr == nil))
+	if gerr != nil || werr != nil {
+		return
+	}
+	vf.Assert("same-number-of-notes-whatever-was-played-before", len(got) == len(want))
+	if len(got) == len(want) {
+		for i := range got {
+			vf.Assert("same-pitches-whatever-was-played-before", got[i] == want[i])
+		}
+	}
+	vf.Reach("end")
+}
